@@ -12,7 +12,9 @@ Every function follows the Python method it mirrors, quirks included:
 * `/` checks for a zero divisor before it checks the operand's type;
 * `TimeInterval * AngularSpeed` raises `TypeError` (the override evaluates `other <= 0` on a quantity);
 * comparisons convert the right operand to the left operand's unit and use an *absolute*
-  tolerance when the units differ, exact comparison when they are equal;
+  tolerance when the units differ, exact comparison when they are equal; when the right operand's
+  class is a proper subclass of the left one's, CPython calls the right operand's reflected method
+  first, so the roles are swapped (`reflected`);
 * in-place `to` overwrites value and unit *without* going through the constructor.
 
 Not modelled: `KeyError` for unknown unit names (the harness only uses units the table lists),
@@ -176,12 +178,26 @@ def cmpRaw (tol : Q) (c : Cmp) (exact : Bool) (x y : Q) : Bool :=
     | .lt => decide (d < -tol) | .le => decide (d ≤ tol)
     | .gt => decide (tol < d) | .ge => decide (-tol ≤ d)
 
-/-- the six comparison dunder methods -/
+/-- the comparison the reflected method stands for -/
+def swapCmp : Cmp → Cmp
+  | .lt => .gt | .gt => .lt | .le => .ge | .ge => .le | c => c
+
+/-- CPython's rich-comparison dispatch: when the right operand's class is a proper subclass of the
+    left operand's class, the *right* operand's (reflected) method runs first — so
+    `AngularPosition == Angle` and `Time <= TimeInterval` are evaluated in the right operand's unit -/
+def reflected (a o : Kind) : Bool := isSub o && !isSub a
+
+/-- one comparison dunder method called on `a` with argument `o` (types already checked) -/
+def cmpDirect (T : Tbl) (c : Cmp) (a o : Qty) : Bool :=
+  cmpRaw T.tol c (a.unit == o.unit) a.value (conv T o a.unit)
+
+/-- the six comparison operators -/
 def cmp (T : Tbl) (c : Cmp) (a : Qty) (b : Val) : Except Err Bool :=
   match b with
   | .n _ => .error .typeE
   | .q o =>
     if !sameFamily a.kind o.kind then .error .typeE else
-    .ok (cmpRaw T.tol c (a.unit == o.unit) a.value (conv T o a.unit))
+    if reflected a.kind o.kind then .ok (cmpDirect T (swapCmp c) o a)
+    else .ok (cmpDirect T c a o)
 
 end Gearpy
